@@ -112,6 +112,7 @@ void HistogramDiff(HistogramPointData &current, HistogramPointData &next, Histog
     diff.counts_[i] = next.counts_[i] - current.counts_[i];
   }
   diff.boundaries_     = current.boundaries_;
+  diff.sum_            = nostd::get<T>(next.sum_) - nostd::get<T>(current.sum_);
   diff.count_          = next.count_ - current.count_;
   diff.record_min_max_ = false;
 }
